@@ -109,6 +109,12 @@ def evaluate(ctx, progs, fuel="200000"):
     })
     return cov
 
+def collect_and_evaluate(ctx):
+    """for the checks that do not collect the C01 streams themselves (C03, C07)"""
+    from props import c01
+    progs, _ = c01.collect(ctx)
+    return evaluate(ctx, progs)
+
 ASSUMPTIONS = [
     "type soundness: `sem_preserves_types_partial` is about `Sem` and the judgement `Wt` on the fragment `ValTy.okE` (no closures, references, vectors, arrays, trait objects, function values; callees are program functions or the printing builtins; enum field reads under an arm that established the variant; trait calls on concretely annotated receivers with a dispatch row of the annotated signature); outside it soundness is only validated by the runs",
     "static dispatch: the oracle restores dynamic dispatch in the REAL Mono dump (key of the runtime receiver must be the key of the declared receiver type of the function mono chose) and compares `Sem` outcomes at the same fuel; programs whose plain run is not definite within the fuel are skipped",
